@@ -12,11 +12,14 @@
    Part 3 (Tier B): for positive-definite P0, R_k, Qd_k the recursion equals the one-shot weighted
    least squares (Gauss-Markov) solution of the stacked linear system, any number of stages.
 
-   NOT proved (C11_partial): optimality for the singular process noise of the real system
-   (G q^2 G^T is rank deficient, so the stacked objective has no weight Qd^-1) and the
-   floating-point agreement of the recursion with a batch solver: both are examined on every run by
-   the independent one-shot solution of tools/props/C11.py (square-root parametrisation, no inverse
-   of a singular matrix). *)
+   Part 4 (Tier B, singular noise): the same for Qd_k = Gam_k Gam_k^T with ARBITRARY Gam_k (any rank) and
+   invertible Phi_k -- the class of the real system -- through the noise-parametrised batch problem.
+
+   NOT proved (C11_partial): that scipy's expm returns an invertible Phi and that the Van Loan Qd is a
+   Gram matrix Gam Gam^T (PSD) -- both are hypotheses here, properties of the exact exponential (C08) --
+   and the floating-point agreement of the recursion with a batch solver: examined on every run by the
+   independent one-shot solution of tools/props/C11.py (square-root parametrisation of exactly this
+   noise-parametrised problem, no inverse of a singular matrix). *)
 From Coq Require Import Reals.
 From PV Require Import Spec.LibSpecs Gen.Earth Gen.ErrState Gen.C11Gen Proofs.FilterFlowProofs.
 
@@ -322,6 +325,77 @@ Theorem C11_kalman_eq_batch_pd :
         traj_cost zs Hs Rs Phis Qds xb P0 N x = innov_cost zs Hs Rs Phis Qds chols xb P0 N -> x N = xN].
 Proof. exact kalman_eq_batch_pd. Qed.
 Print Assumptions C11_kalman_eq_batch_pd.
+
+(* ---- (d') Tier B for SINGULAR process noise: the class of the real system -------------------------
+   Qd_k = Gam_k Gam_k^T with ARBITRARY Gam_k (any rank, also 0), Phi_k invertible (a matrix exponential
+   always is), P0 and R_k symmetric positive definite, any N, any dimensions.  The batch problem is
+   noise-parametrised: free variables (x_0, w_0 .. w_{N-1}), states generated by
+   x_{k+1} = Phi_k x_k + Gam_k w_k (nstate), objective
+       |x_0 - xb|^2_{P0^-1} + sum_k |w_k|^2 + sum_k |z_k - H_k x_k|^2_{R_k^-1}      (noise_cost)
+   -- no inverse of Qd anywhere. *)
+
+(* the propagation step: S = Phi P Phi^T + Gam Gam^T is positive definite, and for every (d, w) with
+   Phi d + Gam w = r:  |d|^2_{P^-1} + |w|^2 = r^T S^-1 r + |d - P Phi^T S^-1 r|^2_{P^-1} + |w - Gam^T S^-1 r|^2,
+   the optimum (prop_dopt, prop_wopt) being feasible *)
+Theorem C11_prop_identity :
+  forall (F : realFieldType) (n p : nat) (P Phi : 'M[F]_n) (Gam : 'M[F]_(n, p)),
+  P^T = P -> pd P -> Phi \in unitmx ->
+  pd (Phi *m P *m Phi^T + Gam *m Gam^T) /\
+  (forall r : 'cV[F]_n, Phi *m prop_dopt P Phi Gam r + Gam *m prop_wopt P Phi Gam r = r) /\
+  forall (d : 'cV[F]_n) (w : 'cV[F]_p) (r : 'cV[F]_n),
+  Phi *m d + Gam *m w = r ->
+  qform (invmx P) d + qform 1%:M w =
+  qform (invmx (Phi *m P *m Phi^T + Gam *m Gam^T)) r +
+  (qform (invmx P) (d - prop_dopt P Phi Gam r) + qform 1%:M (w - prop_wopt P Phi Gam r)).
+Proof. exact prop_identity_full. Qed.
+Print Assumptions C11_prop_identity.
+
+(* any N: the cost-to-arrive at x_N = y (minimum of the objective over all (x_0, w) whose generated state
+   at N is y) is (sum of squared normalised innovations) + |y - xN|^2_{PN^-1}, (xN, PN) = the state of the
+   recursion of the GENERATED code with P <- Phi P Phi^T + Gam Gam^T.  Hence xN is the final state of
+   every minimiser of the batch problem and PN^-1 its information matrix. *)
+Theorem C11_kalman_eq_batch_singular_noise :
+  forall (F : realFieldType) (n p : nat) (md : nat -> nat) (zs : forall k : nat, 'cV[F]_(md k))
+         (Hs : forall k : nat, 'M[F]_(md k, n)) (Rs : forall k : nat, 'M[F]_(md k))
+         (Phis : nat -> 'M[F]_n) (Gams : nat -> 'M[F]_(n, p))
+         (chols : forall k : nat, 'M[F]_(md k) -> 'M[F]_(md k)) (xb : 'cV[F]_n) (P0 : 'M[F]_n),
+  P0^T = P0 -> pd P0 ->
+  (forall k : nat, (Rs k)^T = Rs k) -> (forall k : nat, pd (Rs k)) ->
+  (forall k : nat, Phis k \in unitmx) ->
+  forall N : nat,
+  (forall k : nat, (k < N)%N -> chol_ok zs Hs Rs Phis (gram_Qd Gams) chols xb P0 k) ->
+  let xN := (kf_run zs Hs Rs Phis (gram_Qd Gams) chols N (xb, P0)).1 in
+  let PN := (kf_run zs Hs Rs Phis (gram_Qd Gams) chols N (xb, P0)).2 in
+  let icost := innov_cost zs Hs Rs Phis (gram_Qd Gams) chols xb P0 in
+  let J := noise_cost zs Hs Rs Phis Gams xb P0 in
+  let xs := nstate Phis Gams in
+  [/\ PN^T = PN /\ pd PN,
+      forall (x0 : 'cV[F]_n) (w : nat -> 'cV[F]_p), icost N + qform (invmx PN) (xs x0 w N - xN) <= J N x0 w,
+      forall y : 'cV[F]_n, exists (x0 : 'cV[F]_n) (w : nat -> 'cV[F]_p),
+        xs x0 w N = y /\ J N x0 w = icost N + qform (invmx PN) (y - xN),
+      (forall (x0 : 'cV[F]_n) (w : nat -> 'cV[F]_p), icost N <= J N x0 w) /\
+      (exists (x0 : 'cV[F]_n) (w : nat -> 'cV[F]_p), xs x0 w N = xN /\ J N x0 w = icost N)
+    & forall (x0 : 'cV[F]_n) (w : nat -> 'cV[F]_p), J N x0 w = icost N -> xs x0 w N = xN].
+Proof. exact kalman_eq_batch_singular_noise. Qed.
+Print Assumptions C11_kalman_eq_batch_singular_noise.
+
+(* non-vacuity with a singular Qd: two states, the noise drives only the first (Gam = (1; 0), rank 1 < 2),
+   P0 = 3 I, H = (1 0), R = 1 (S = 4, L = 2), Phi = I *)
+Example C11_ex_batch_singular_hypotheses :
+  forall F : realFieldType,
+  let md := fun _ : nat => 1%N in
+  let zs := fun _ : nat => (0 : 'cV[F]_1) in
+  let Hs := fun _ : nat => (row_mx 1%:M 0 : 'M[F]_(1, 1 + 1)) in
+  let Rs := fun _ : nat => (1%:M : 'M[F]_1) in
+  let Phis := fun _ : nat => (1%:M : 'M[F]_(1 + 1)) in
+  let Gams := fun _ : nat => (col_mx 1%:M 0 : 'M[F]_(1 + 1, 1)) in
+  let chols := fun (_ : nat) (_ : 'M[F]_1) => (2%:R%:M : 'M[F]_1) in
+  let P0 : 'M[F]_(1 + 1) := 3%:R%:M in
+  [/\ P0^T = P0 /\ pd P0, (forall k, (Rs k)^T = Rs k) /\ (forall k, pd (Rs k)),
+      forall k, Phis k \in unitmx,
+      forall k, (\rank (Gams k) < 1 + 1)%N /\ (\rank (gram_Qd Gams k) < 1 + 1)%N
+    & forall k, (k < 1)%N -> @chol_ok F (1 + 1) md zs Hs Rs Phis (gram_Qd Gams) chols 0 P0 k].
+Proof. exact example_batch_singular. Qed.
 
 (* non-vacuity of Tier B: one stage, 1 x 1: P0 = 3, H = 1, R = 1 (S = 4, L = 2), Phi = 1, Qd = 1 *)
 Example C11_ex_batch_hypotheses :
